@@ -150,7 +150,7 @@ def cif_variant(text, kind):
     raise KeyError(kind)
 
 
-def emit_cif(table, null_icode="?", null_alt=".", null_occ="?", label_differs=False, extra_categories=None, label_seq_null=None):
+def emit_cif(table, null_icode="?", null_alt=".", null_occ="?", label_differs=False, extra_categories=None, label_seq_null=None, omit_items=()):
     """label_differs: label_asym_id / label_seq_id carry other values than the auth ids (as in real files)."""
     rows = []
     lab_asym = {}
@@ -180,7 +180,13 @@ def emit_cif(table, null_icode="?", null_alt=".", null_occ="?", label_differs=Fa
     cats = {"entry": (["id"], [(("v", "VERIF"),)])}
     if extra_categories:
         cats.update(extra_categories)
-    cats["atom_site"] = (list(CIF_ITEMS), rows)
+    items = list(CIF_ITEMS)
+    if omit_items:
+        # optional items a file need not carry (auth_atom_id, auth_comp_id, ...)
+        keep = [k for k, it in enumerate(items) if it not in omit_items]
+        items = [items[k] for k in keep]
+        rows = [tuple(r[k] for k in keep) for r in rows]
+    cats["atom_site"] = (items, rows)
     return cif.emit([("VERIF", cats)], {"atom_site": "loop"})
 
 
